@@ -293,7 +293,7 @@ func applyFuncs(c *eng.Ctx) []*ssa.Function {
 // by the not-present edge of a comma-ok lookup of the same key in active.f,
 // with no unlock in between.
 func removalGuardedByHandle(a storeAccess) bool {
-	for _, cond := range eng.FactsAt(a.In) {
+	for _, cond := range eng.FactsX(a.In) {
 		src, truth, isCO := cond.CommaOk()
 		if !isCO || truth {
 			continue
@@ -302,8 +302,8 @@ func removalGuardedByHandle(a storeAccess) bool {
 		if !isLk {
 			continue
 		}
-		if n, isAct := activeMapOf(lk.X); isAct && n == "f" && eng.Same(lk.Index, a.Map.Key) {
-			hit, _ := eng.Search(a.Fn, lk, nil, func(x ssa.Instruction) bool { return x == a.In }, func(x ssa.Instruction) bool {
+		if n, isAct := activeMapOf(lk.X); isAct && n == "f" && eng.SameX(lk.Index, a.Map.Key) {
+			hit, _ := eng.SearchX(lk.Parent(), lk, nil, func(x ssa.Instruction) bool { return x == a.In }, func(x ssa.Instruction) bool {
 				if call, isC := x.(*ssa.Call); isC {
 					op, k, isL := eng.LockOp(&call.Call)
 					return isL && k == keyStore && op == "Unlock"
